@@ -588,20 +588,31 @@ def _concretise_type(T: dict, sp: int, lit_ok: bool = True) -> t.Any:
         if any(isinstance(x, (dict, tuple)) for x in kids):
             return opts[pep585]()
         return opts[sp % len(opts)]()
+    anyelem = lambda key: T[key]['k'] == 'any'      # noqa  (X[Any] may also be written without its argument)
     if k == 'list':
         E = sub(T['e'])
+        if anyelem('e') and sp % 6 in (4, 5):
+            return [list, t.List][sp % 2]
         return pick([E], [lambda: _ix(t.List, (E,)), lambda: list[E], lambda: _ix(t.MutableSequence, (E,)), lambda: collections.abc.MutableSequence[E]], 1)
     if k == 'tuplevar':
         E = sub(T['e'])
+        if anyelem('e') and sp % 6 in (3, 4, 5):
+            return [tuple, t.Tuple, t.Sequence][sp % 3]
         return pick([E], [lambda: _ix(t.Tuple, (E, ...)), lambda: tuple[E, ...], lambda: _ix(t.Sequence, (E,)), lambda: collections.abc.Sequence[E]], 1)
     if k == 'set':
         E = sub(T['e'])
+        if anyelem('e') and sp % 6 in (4, 5):
+            return [set, t.Set][sp % 2]
         return pick([E], [lambda: _ix(t.Set, (E,)), lambda: set[E], lambda: _ix(t.MutableSet, (E,))], 1)
     if k == 'frozenset':
         E = sub(T['e'])
+        if anyelem('e') and sp % 6 in (4, 5):
+            return [frozenset, t.FrozenSet][sp % 2]
         return pick([E], [lambda: _ix(t.FrozenSet, (E,)), lambda: frozenset[E], lambda: _ix(t.AbstractSet, (E,))], 1)
     if k == 'deque':
         E = sub(T['e'])
+        if anyelem('e') and sp % 6 in (4, 5):
+            return [collections.deque, t.Deque][sp % 2]
         return pick([E], [lambda: _ix(t.Deque, (E,)), lambda: collections.deque[E]], 1)
     if k == 'tuple':
         es = tuple(sub(e) for e in T['es'])
@@ -614,12 +625,18 @@ def _concretise_type(T: dict, sp: int, lit_ok: bool = True) -> t.Any:
         return pick(es, [lambda: _ix(t.Tuple, es), lambda: tuple[es]], 1)
     if k == 'dict':
         K, V = sub(T['kt']), sub(T['vt'])
+        if anyelem('kt') and anyelem('vt') and sp % 6 in (3, 4, 5):
+            return [dict, t.Dict, t.Mapping][sp % 3]
         return pick([K, V], [lambda: _ix(t.Dict, (K, V)), lambda: dict[K, V], lambda: _ix(t.Mapping, (K, V)), lambda: _ix(t.MutableMapping, (K, V)), lambda: collections.abc.Mapping[K, V]], 1)
     if k == 'defaultdict':
         K, V = sub(T['kt']), sub(T['vt'])
+        if anyelem('kt') and anyelem('vt') and sp % 6 in (4, 5):
+            return [collections.defaultdict, t.DefaultDict][sp % 2]
         return pick([K, V], [lambda: _ix(t.DefaultDict, (K, V)), lambda: collections.defaultdict[K, V]], 1)
     if k == 'ordereddict':
         K, V = sub(T['kt']), sub(T['vt'])
+        if anyelem('kt') and anyelem('vt') and sp % 6 in (4, 5):
+            return [collections.OrderedDict, t.OrderedDict][sp % 2]
         return pick([K, V], [lambda: _ix(t.OrderedDict, (K, V)), lambda: collections.OrderedDict[K, V]], 1)
     if k == 'counter':
         K = sub(T['kt'])
